@@ -55,7 +55,7 @@ enum Must {
     WrongKind,
 }
 
-pub const SHAPES: &[&str] = &["empty", "one_node", "edgeless", "one_edge", "self_loop_only", "isolated_plus_component", "star", "path", "parallel_only", "two_components", "loop_and_parallel", "reciprocal_pair"];
+pub const SHAPES: &[&str] = &["empty", "one_node", "edgeless", "one_edge", "self_loop_only", "isolated_plus_component", "star", "path", "parallel_only", "two_components", "loop_and_parallel", "reciprocal_pair", "diamond", "triangle_with_tail"];
 
 fn shape_ops(shape: &str, directed: bool, multi: bool, loops: bool, weighted: bool) -> Vec<Op> {
     let w = |x: f64| if weighted { wbits(x) } else { NAN_BITS };
@@ -86,6 +86,9 @@ fn shape_ops(shape: &str, directed: bool, multi: bool, loops: bool, weighted: bo
             v
         }
         "two_components" => vec![nodes(&["d", "b", "c", "a"]), e("a", "b", 1.0), e("c", "d", 2.0)],
+        // two equally long routes a -> d (ties) and a degree-one tail
+        "diamond" => vec![nodes(&["d", "c", "b", "a"]), e("a", "b", 1.0), e("a", "c", 1.0), e("b", "d", 1.0), e("c", "d", 1.0)],
+        "triangle_with_tail" => vec![nodes(&["t", "z", "y", "x"]), e("x", "y", 1.0), e("y", "z", 1.0), e("z", "x", 1.0), e("z", "t", 2.0)],
         "loop_and_parallel" => {
             let mut v = vec![nodes(&["b", "a", "c"]), e("a", "b", 1.0), e("b", "c", 1.0)];
             if loops {
@@ -273,6 +276,29 @@ pub fn sweep(g: &G, snap: &Snap, case: &Case, keying: u64, cx: &mut Ctx) {
             s.call("dijkstra::single_source", Refuse, &format!("{},{},target=absent", weighted, x), || r(dijkstra::single_source(g, weighted, x.clone(), Some(absent.clone()), None, false, true)));
             s.call("dijkstra::multi_source", m, &format!("{},[{}]", weighted, x), || r(dijkstra::multi_source(g, weighted, vec![x.clone()], None, Some(1.0), true, false)));
             if *present {
+                // every option combination (target / cutoff x first_only x with_paths) from this source
+                for (y, yp) in &per_node {
+                    if !*yp {
+                        continue;
+                    }
+                    for cutoff in [None, Some(2.0)] {
+                        for first_only in [false, true] {
+                            for with_paths in [false, true] {
+                                let y = y.clone();
+                                s.call("dijkstra::single_source", Return, &format!("{},{},target={},cutoff={:?},{},{}", weighted, x, y, cutoff, first_only, with_paths), || r(dijkstra::single_source(g, weighted, x.clone(), Some(y.clone()), cutoff, first_only, with_paths)));
+                            }
+                        }
+                    }
+                }
+                for first_only in [false, true] {
+                    for with_paths in [false, true] {
+                        s.call("dijkstra::single_source", Return, &format!("{},{},cutoff,{},{}", weighted, x, first_only, with_paths), || r(dijkstra::single_source(g, weighted, x.clone(), None, Some(1.5), first_only, with_paths)));
+                        s.call("dijkstra::multi_source", Return, &format!("{},[{}],target,{},{}", weighted, x, first_only, with_paths), || r(dijkstra::multi_source(g, weighted, vec![x.clone()], Some(x.clone()), None, first_only, with_paths)));
+                        s.call("dijkstra::all_pairs", Return, &format!("{},target={},cutoff,{},{}", weighted, x, first_only, with_paths), || r(dijkstra::all_pairs(g, weighted, Some(x.clone()), Some(2.0), first_only, with_paths)));
+                    }
+                }
+            }
+            if *present {
                 s.call("dijkstra::get_all_shortest_paths_involving", Return, &format!("{},{}", x, weighted), || v(dijkstra::get_all_shortest_paths_involving(g, x.clone(), weighted).len()));
                 s.call("dijkstra::all_pairs", Return, &format!("{},target={}", weighted, x), || r(dijkstra::all_pairs(g, weighted, Some(x.clone()), None, false, true)));
             }
@@ -361,11 +387,29 @@ pub fn sweep(g: &G, snap: &Snap, case: &Case, keying: u64, cx: &mut Ctx) {
     for k in [1usize, 2, n.max(1), n + 1] {
         s.call("bfs_equal_size_partitions", Return, &k.to_string(), || v(components::bfs_equal_size_partitions(g, k).len()));
     }
+    // ---- generators (no graph argument: degenerate sizes and probabilities)
+    for nn in [0i32, 1, 2, 5] {
+        for d in [false, true] {
+            s.call("complete_graph", Return, &format!("{},{}", nn, d), || v(graphrs::generators::classic::complete_graph(nn, d).number_of_nodes()));
+            for p in [0.5, 1e-9, 0.999999] {
+                s.call("fast_gnp_random_graph", Return, &format!("{},{},{}", nn, p, d), || r(graphrs::generators::random::fast_gnp_random_graph(nn, p, d, Some(3))));
+            }
+            for p in [0.0, 1.0, -0.5, 1.5, f64::NAN] {
+                s.call("fast_gnp_random_graph", if p.is_nan() { Return } else { WrongKind }, &format!("{},{},{}", nn, p, d), || r(graphrs::generators::random::fast_gnp_random_graph(nn, p, d, Some(3))));
+            }
+        }
+    }
+    s.call("karate_club_graph", Return, "", || v(graphrs::generators::social::karate_club_graph().number_of_nodes()));
     // ---- read / write
     s.call("write_graphml_string", Return, "", || match graphml::write_graphml_string(g) {
+        Ok(_) => Res::Val,
+        Err(_) => Res::Err(K::Other),
+    });
+    s.call("read_graphml_string", Return, "own output", || match graphml::write_graphml_string(g) {
         Ok(doc) => r(graphml::read_graphml_string(&doc, g.specs.clone())),
         Err(_) => Res::Err(K::Other),
     });
+    s.call("read_graphml_string", Return, "garbage", || r(graphml::read_graphml_string("<graphml><graph><node/></graph>", g.specs.clone())));
 }
 
 trait ResExt {
@@ -486,7 +530,7 @@ fn registry_scan() -> J {
         }
     });
     // private helper modules and constructors are not API a degenerate graph can reach
-    let skip = ["cluster/directed", "cluster/directed_weighted", "cluster/undirected", "cluster/undirected_weighted", "cluster/utility", "fringe_node", "adjacent_node", "edge::", "node::", "graph_specs::", "creation::", "generators/", "shortest_path_info", "read_graphml_file", "write_graphml_file"];
+    let skip = ["cluster/directed", "cluster/directed_weighted", "cluster/undirected", "cluster/undirected_weighted", "cluster/utility", "fringe_node", "adjacent_node", "edge::", "node::", "graph_specs::", "creation::", "shortest_path_info", "read_graphml_file", "write_graphml_file"];
     let mut uncovered = vec![];
     let mut covered = 0;
     for f in &found {
